@@ -251,3 +251,21 @@ Print Assumptions pipe_single_claim_needs_cas.
 (* check-then-store on the owner's side: both claimants succeed — the task body runs twice *)
 Example pipe_check_then_store_refuted : double_claim_possible ClaimCheckThenStore ClaimCAS = true.
 Proof. exact (proj1 (proj2 double_claim_table)). Qed.
+
+(* ---- scheduler teardown (re-initialisation of the tasking system, process exit) ----
+   Every task scheduled BEFORE teardown, and every follow-up scheduled by a task DURING teardown (any nesting depth), has
+   run exactly once when WaitforAll — the drain step of ~TaskScheduler — returns, and the pipes are empty.  Stated for the
+   loop as written ("||") with all workers waiting (in particular with one tasking thread, where there is no worker and
+   teardown is what finally runs queued closures — cf. the open 1-thread finding, which is about running them WITHOUT it). *)
+Theorem teardown_runs_everything_exactly_once : forall queue,
+  exists done, teardown LOr queue = Some ([], done) /\ Permutation done (fids queue).
+Proof. exact teardown_or_runs_everything. Qed.
+Print Assumptions teardown_runs_everything_exactly_once.
+(* "&&" instead of "||": the loop is never entered when no worker is busy — everything queued is dropped *)
+Theorem teardown_with_and_drops_everything : forall queue, teardown LAnd queue = Some (queue, []).
+Proof. exact teardown_and_drops. Qed.
+Print Assumptions teardown_with_and_drops_everything.
+(* with a busy worker whose task schedules follow-ups: "||" waits for it and drains them; "&&" leaves with work in flight *)
+Example teardown_with_busy_worker :
+  mt_example LOr = Some ([], [], [3; 2; 1]%N) /\ (exists q i d, mt_example LAnd = Some (q, i, d) /\ i <> []).
+Proof. exact teardown_mt_examples. Qed.
